@@ -10,9 +10,9 @@ HND_FILES = ["Model/Handler.v", "Run/HandlerRun.v"]
 HND_TB = [
     "modelled, not verified: cryptography is symbolic (Dolev-Yao terms for ECDH/HKDF keys, AES-GCM ciphertexts, ECDSA id-signatures; the harness maps real datagrams to terms with the crate's own primitives and tests that the real primitives behave like the terms on every generated case); tokio timers are deadlines fired on a 5 ms grid of a paused clock; the order in which timers with one and the same deadline fire is an oracle choice (insertion order or its reverse, the two behaviours of tokio-util's timer wheel); randomness is an oracle input observed on the wire; session expiry by age is not part of the handler model (Model/Lru.v); the UDP socket tasks are replaced by channels (real RecvHandler::handle_inbound and Packet::encode/decode are used)",
 ]
-def _hnd(focus, quick=64, thorough=1500):
+def _hnd(focus, quick=64, thorough=1500, extra=()):
     return {
-        "coq_files": HND_FILES,
+        "coq_files": HND_FILES + list(extra),
         "runner_vo": "Run/HandlerRun.v",
         "harness": [{"component": "hnd", "args": ["--focus", focus, "--fixes", "all"], "quick": quick, "thorough": thorough}],
         "trusted_base": HND_TB,
@@ -48,6 +48,23 @@ SPECS = {
         "assumptions": ["the raw Entry API (AbsentEntry::insert, value_mut) bypasses the filters by its documentation and is excluded",
                         "values are interned records: every value is offered for one key only (owner (vid v) = k, a record's node id is its key) and its /24 is a function of the record (vsub v = subof (vid v)); both are shown necessary for the model in Proofs/SubnetExamples.v"],
         "explanation": "subnet-count invariant of Model/KBucket.v with the IP filters over all operation lists + correspondence + direct recount monitor",
+    },
+    "C06": {
+        "coq_files": ["Generated/Params.v", "Model/Rlp.v", "Model/Rpc.v", "Proofs/Rlp.v", "Proofs/Rpc.v", "Run/RpcRun.v"],
+        "runner_vo": "Run/RpcRun.v",
+        "harness": [
+            {"component": "rpcc", "args": [], "quick": 640, "thorough": 16000},
+        ],
+        "trusted_base": [
+            "modelled, not verified: alloy-rlp 0.3.16 (its decoding rules are re-modelled in Model/Rlp.v and compared with the crate on every case, including the error kind), the enr crate (opaque in the model: the laws enr_round_trip / enr_canonical / enr_only_lists are premises of the theorems; the harness supplies what the real Enr::decode answers on every RLP-list slice of every input, so the laws are exercised with valid, mutated, padded and oversized records), std::net::Ipv6Addr::{is_loopback,to_ipv4} (re-modelled, compared), a 64-bit usize",
+        ],
+        "assumptions": [
+            "ENR codec laws as explicit premises: enr_decode (enr_encode e) = Some e; enr_decode b = Some e -> enr_encode e = b; enr_decode accepts only RLP lists (DESIGN.md section 4)",
+            "bytes are numbers below 256 (bytes_ok) where canonicity is claimed; u64 fields < 2^64, encodings shorter than 2^64 bytes",
+            "the fuel of the model's two loops (length of the payload) is a model artefact; C06_decode_msg_terminates shows it never runs out",
+            "the main theorems are about the decoder with the repair of D9 (fixed = true); C06_nodes_inner_list_exact_refuted records the behaviour of the pinned tree",
+        ],
+        "explanation": "theorems about Model/Rlp.v + Model/Rpc.v (round trip, layout, no panic, canonicity of accepted inputs, one strictness theorem per rule of the property text) + correspondence of rpc::Message::{encode,decode} with the model on generated messages, layout-tree mutations, byte mutations and junk (decoded value / error kind / panic and encoded bytes compared) + direct monitor (round trip, layout, no panic, accepted => canonical re-encoding, each rejection rule)",
     },
     "C08": {
         "coq_files": KB_FILES + ["Proofs/ClosestOrder.v"] + ["Lib/ListY.v", "Proofs/KBucketInv.v", "Proofs/KBucketTable.v", "Proofs/KBucketPending.v"] + ["Proofs/ClosestTable.v"],
@@ -115,7 +132,7 @@ SPECS = {
     "C02": _hnd("c02"),
     "C03": _hnd("c03"),
     "C04": _hnd("c04"),
-    "C13": _hnd("c13"),
+    "C13": _hnd("c13", extra=["Proofs/HandlerInv.v"]),
     "C19": _hnd("c19"),
     "C17": {
         "coq_files": ["Generated/Params.v", "Model/IpVote.v", "Proofs/IpVote.v", "Run/IpVoteRun.v"],
@@ -165,4 +182,80 @@ SPECS = {
         ],
         "explanation": "theorems over Model/Query.v (result is a subset of the peers that answered after being contacted, at most num_results, strictly sorted by XOR distance, distinct, predicate flag from the candidates / reports, completeness when short, the pool hands out reachable query states) + the same correspondence run as C09 + direct monitors on the result",
     },
+    "C18": {
+        "coq_files": ["Generated/Params.v", "Model/Limiter.v", "Proofs/Limiter.v", "Run/LimiterRun.v"],
+        "runner_vo": "Run/LimiterRun.v",
+        "harness": [
+            {"component": "limiter", "args": ["--part", "lim"], "quick": 128, "thorough": 2400},
+            {"component": "limiter", "args": ["--part", "fil"], "quick": 40, "thorough": 400},
+            {"component": "limiter", "args": ["--part", "inb"], "quick": 24, "thorough": 240},
+        ],
+        "trusted_base": [
+            "modelled, not verified: std::time::Instant (the model takes the time as an argument; Limiter is driven through its explicit-time entry point and compared exactly; Filter reads the clock itself and is compared on histories whose outcome does not depend on the position of the clock inside the measured bracket - quotas that do not refill within a case or are full again before every call), fnv::FnvHashMap / std HashMap / HashSet (association lists, compared as sorted sets), hashlink::LruCache (list in link order), the metrics-only ReceivedPacketCache (not modelled), parking_lot::RwLock around the process-global PERMIT_BAN_LIST (cases run serially)",
+            "Handler::unban_nodes_check is a private method of the handler: it is driven by starting a real Handler (hook VirtualHandler::spawn of the handler checks; the first tick of its 300 s interval fires at once); RecvHandler::handle_inbound is driven through the hooks RecvHandler::verif_new / verif_handle_inbound (datagrams built with the real Packet::encode)",
+        ],
+        "assumptions": [
+            "limiter clock below 2^64 ns minus twice the period (u64 nanoseconds since the creation of the rate limiter); arrival times do not go back (Instant is monotonic)",
+            "window bound is (period + window) / t with t = period / max_tokens rounded down; it equals burst + rate*window when max_tokens divides the period (theorem C18_rounding_of_the_token_period records the excess otherwise)",
+            "ban_lasts excludes the application's own ban_ip / ban_ip_remove / permit_ip (resp. node) calls for the banned sender",
+        ],
+        "explanation": "theorems about Model/Limiter.v (GCRA = token bucket, window bound, conforming traffic never refused at limiter and filter level, prune transparency, ban/permit decision table, bans last until expiry) + exact correspondence of Limiter<u64> (verdicts, waiting times, all TATs, overflow panics, invalid quotas) + correspondence of Filter::initial_pass/final_pass/prune_limiter, RecvHandler::handle_inbound (exempt sources, undecodable / WHOAREYOU / message datagrams), Handler::unban_nodes_check and the Discv5 ban/permit API on the global list (decisions, lists, LRU caches, limiter key sets) + direct monitors (window bound, reference token bucket, prune transparency via an unpruned shadow limiter, permit/ban precedence, quota counting, ban expiry)",
+    },
 }
+
+SVC_FILES = ["Generated/Params.v", "Lib/ListX.v", "Model/KBucket.v", "Model/Nodes.v", "Model/Serve.v", "Model/Admission.v",
+             "Proofs/Nodes.v", "Proofs/KBMembers.v", "Proofs/Serve.v", "Proofs/Admission.v", "Proofs/ServiceInv.v",
+             "Run/KBucketRun.v", "Run/ServiceRun.v"]
+SVC_TB = [
+    "modelled, not verified: tokio scheduling and timers (the real Service::start loop runs on a current-thread runtime with paused time; the harness plays the handler: it injects HandlerOut events and drains HandlerIn messages after letting the service task run until idle), std::time::Instant (routing-table pending timeouts of 60 s and query timeouts never elapse inside a case), the process-global PERMIT_BAN_LIST (cases run serially), the enr crate (records are interned by content: equal RLP <-> equal vid; node ids are hashes of public keys, so identities come from a fixed pool of 640 keys), request ids / nonces chosen by the implementation (observed)",
+    "hooks: src/service/verif_hooks.rs (scripted_service = Discv5::new + Service::spawn minus Handler::spawn), src/discv5/verif_hooks.rs (attaches the real Discv5 API to that service), src/verif/service.rs (re-exports, response_datagram = Session::encrypt_message + Packet::encode)",
+]
+
+SPECS.update({
+    "C11": {
+        "coq_files": SVC_FILES,
+        "runner_vo": "Run/ServiceRun.v",
+        "harness": [
+            {"component": "service", "args": ["--focus", "c11"], "quick": 360, "thorough": 4000},
+        ],
+        "trusted_base": SVC_TB,
+        "assumptions": [
+            "ids are 256-bit (C11_findnode_distances_spec); the finite sweep over 256 distances x 128 sizes is a kernel VM computation inside Proofs/Nodes.v",
+            "'accepted' = handed to Service::discovered (observed through Event::Discovered, which is emitted for every such record that does not carry the local id)",
+            "find_node_designated_peer hands the first NODES packet to the caller unfiltered and never bans (modelled as such: ar_user); the property's clauses are about lookup / internal requests",
+            "the honest responder of the theorem is Model/Serve.v (what this implementation serves, C14) on a table satisfying the C07 invariant; in the harness it is a second real Service",
+        ],
+        "explanation": "theorems about Model/Nodes.v + Model/Serve.v (kept = on-distance records, banned iff an off-distance record, honest responder never banned for every target / table / distance list, <= 15 packets collected, completed requests ignore packets, findnode_log2distance spec) + correspondence of the real Service (lookup, user-designated and internal ENR requests; honest answers produced by a second real Service, scripted malicious answers) with the model packet by packet (ban list, Discovered events, user callback) + direct monitors",
+    },
+    "C14": {
+        "coq_files": SVC_FILES,
+        "runner_vo": "Run/ServiceRun.v",
+        "harness": [
+            {"component": "service", "args": ["--focus", "c14"], "quick": 96, "thorough": 1200},
+        ],
+        "trusted_base": SVC_TB + [
+            "the wire size of a NODES response is a self-contained function in Model/Serve.v (RLP sizes written out: type byte, list header, request id, total, record list; 16 IV + 23 static header + 32 authdata + 16 GCM tag); it is compared with the length of the datagram produced by the real Response::encode + AES-GCM + Packet::encode for every emitted response; the model of the RPC encoder (Model/Rpc.v, C06) is not used",
+        ],
+        "assumptions": [
+            "C14_packet_fits: records <= MAX_ENR_SIZE (300, enr crate), request id <= 8 bytes (decoder limit), at most 255 packets per answer (holds whenever max_nodes_response <= 254; C14_packet_total_256_too_long shows the bound is needed: configuration corner, default is 16)",
+            "max_nodes_response = 0 still serves one table record (the collection loop pushes before it tests the limit): C14_collect_bounded states max(maxn, 1)",
+            "the truncation to max_nodes_response happens before the requester's own record is removed, so an answer can carry one record fewer than the maximum",
+        ],
+        "explanation": "theorems about Model/Serve.v (served records = local record iff 0 requested + nodes_by_distances on the sorted/deduplicated/in-range distances minus the requester; collection sound / bounded / complete; packets partition the answer, carry the id and total = number of packets, none empty; every packet <= 1280 bytes from the regenerated constants; PONG exact) + correspondence of the real Service's answers (records, split, totals, measured wire length) + direct monitor",
+    },
+    "C12": {
+        "coq_files": SVC_FILES,
+        "runner_vo": "Run/ServiceRun.v",
+        "harness": [
+            {"component": "service", "args": ["--focus", "c12"], "quick": 96, "thorough": 1200},
+        ],
+        "trusted_base": SVC_TB,
+        "assumptions": [
+            "Handler::verify_enr is transcribed in the model (verify_enr / session_report) and covered by theorems; the scripted service plays the handler, so the real verify_enr is exercised by the handler properties (C01..C04), not by this correspondence run",
+            "records known only to running queries (find_enr's second source in the PONG branch) are outside the model; the harness lets lookups finish before it injects PONGs",
+            "records arriving with a session report replace the stored record whenever they differ (not seq-guarded; they are owner-authenticated by the handshake, C01); counted as an observation in the distribution",
+            "C12_discovered_update_rule is the 'replaces only if' direction; removals by discovered() (older stored version of an inadmissible newer record; eviction by the routing table's own filters) are covered by the direct monitor and the correspondence only",
+        ],
+        "explanation": "invariant of Model/Admission.v over all event sequences (every entry keyed by its record's id, contactable in the IP mode, accepted by the table filter, not the local node), origin of keys (session report or add_enr only, never discovered()), single-stack address bound through verify_enr, update rule of discovered() + step-by-step correspondence of the real Service (table dump after every event) in all IP modes with four table filters + direct monitor",
+    },
+})
